@@ -431,6 +431,10 @@ func MakeStorableDecoder(ctl *CallbackCtl) atree.StorableDecoder {
 
 // ---- hash input & comparator ----
 
+// hipShift > 0 makes the hash input of integer keys lossy (k >> hipShift): distinct keys then share their
+// whole digest sequence even under the library's default digester (a caller-supplied HashInputProvider may do that).
+var hipShift uint
+
 // hashInputOf returns the canonical CBOR encoding of a scalar key.
 func hashInputOf(v atree.Value, buf []byte) ([]byte, error) {
 	out := buf[:0]
@@ -442,7 +446,7 @@ func hashInputOf(v atree.Value, buf []byte) ([]byte, error) {
 			continue
 		case U64:
 			out = append(out, 0xd8, tagU64)
-			return appendCBORHead(out, 0, uint64(x)), nil
+			return appendCBORHead(out, 0, uint64(x)>>hipShift), nil
 		case Str:
 			out = appendCBORHead(out, 3, uint64(len(x.S)))
 			return append(out, x.S...), nil
